@@ -51,7 +51,9 @@
 (*      post_form            a POST form that carries match[] is refused: gorilla/schema "invalid path match[]"  *)
 (*      limit                more than Limit (10000) values / label documents: the rest is dropped silently      *)
 (* Mech({}) = Def is what TLC proves; every difference between Mech(as coded) and Def must be accounted for by a *)
-(* quirk (FiredOf).                                                                                              *)
+(* quirk (FiredOf).  Repaired in /repo since (tools/props/x06.py REPAIRED; they stay as mutations of the         *)
+(* mechanism that classify a regression): post_form, dup_keyorder (encodeLabels sorts the labels by name),       *)
+(* bare_colon, goquote.  Still as coded: label_absent, labels_match_ignored, limit.                              *)
 EXTENDS Integers, Sequences, FiniteSets, TLC
 
 CONSTANTS Names,       \* the label names; "n" stands for __name__
